@@ -85,25 +85,26 @@ theorem next_expiry_after_last_close_fires {w : World} {k l : Nat} {c : Call}
     simp only [step, stepCall, setCall_get hk, setCall_counter, h0, if_true]
   exact ⟨_, _, run_two h1 h2, setCall_get (setCall_get hk), rfl, rfl⟩
 
-/-- under the orderly discipline a call that serves with a timeout always has the deadline armed when it blocks in
-    Accept on an open listener, so the expiry label of the two theorems above is enabled -/
-example : ∃ w, run init [.spawn .bind false (some 0), .call 0, .call 0, .call 0, .call 0,
-      .spawn .doListen true none, .call 1, .call 1, .call 1, .call 1] = some w ∧
+/-- a call that serves with a timeout has the deadline armed when it blocks in Accept on an open listener, so the
+    expiry label of the two theorems above is enabled -/
+example : ∃ w, run init [.spawn .bind false (some 0), .call 0,
+      .spawn .doListen true none, .call 1, .call 1, .call 1] = some w ∧
       (w.calls[1]?).map (·.pc) = some .inAccept ∧ isArmed w 0 = true ∧ isOpen w 0 = true ∧ w.counter = 0 := by
   refine ⟨_, rfl, ?_⟩; decide
 
-/-- **no_timeout_never_stops**: if no serving call is started with a timeout and nobody calls Shutdown (orderly
-    use otherwise arbitrary: any clients, faults, cancellations, refused binds, re-serves), then in every reachable
-    state no expiry label is enabled, every call that has entered its accept loop is still in it with the service
-    running and its listener open, and nothing has ever returned except start-up errors (and `nil` of a stand-alone
-    Bind): started without a timeout, the service never stops by itself. -/
+/-- **no_timeout_never_stops**: if no serving call is started with a timeout and nobody calls Shutdown (`Quiet`:
+    otherwise arbitrary serial use — a serving call is started only when no other API call is in flight — with any
+    clients, faults, cancellations, stand-alone and refused binds, re-serves), then in every reachable state no expiry
+    label is enabled, every call that has entered its accept loop is still in it with the service running and its
+    listener open, and nothing has ever returned except start-up errors (and `nil` of a stand-alone Bind): started
+    without a timeout, the service never stops by itself. -/
 theorem no_timeout_never_stops {w : World} (h : Reach Quiet init w) :
     (∀ k, step w (.expire k) = none) ∧
     (∀ (k : Nat) (c : Call), w.calls[k]? = some c →
       goodRet c ∧
       (loopPc c.pc = true → w.running = true ∧ c.pc ≠ .errOther ∧ c.pc ≠ .errTimeout ∧
         ∃ l, c.l = some l ∧ isOpen w l = true)) := by
-  obtain ⟨ho, hn, hs⟩ := quiet_invs h
+  obtain ⟨_, hn, hs⟩ := quiet_invs h
   constructor
   · intro k
     simp only [step, stepExpire]
@@ -121,46 +122,65 @@ theorem no_timeout_never_stops {w : World} (h : Reach Quiet init w) :
         simp [this]
       · rfl
   · intro k c hk
-    obtain ⟨_, s2, s3⟩ := hs.call k c hk
-    refine ⟨s3, fun hp => ?_⟩
-    obtain ⟨r1, r2, r3⟩ := s2 hp
-    obtain ⟨e1, e2⟩ := (ho.own k c hk).loopL hp
-    obtain ⟨l, hl⟩ := Option.isSome_iff_exists.mp e2
-    exact ⟨r1, r2, r3, l, hl, hs.lstOpen l (by rw [← e1]; exact hl)⟩
+    obtain ⟨s2, s3⟩ := hs.call k c hk
+    exact ⟨s3, s2⟩
 
-/-- the hypotheses are satisfiable by a serving state with an open connection -/
+/-- the hypotheses are satisfiable by a serving state with an open connection (and a stand-alone Bind refused while
+    serving) -/
 example : ∃ w, Reach Quiet init w ∧ (w.calls[1]?).map (·.pc) = some .inAccept ∧ w.counter = 1 :=
-  ⟨_, quiet_of_runB [.spawn .bind false (some 0), .call 0, .call 0, .call 0, .call 0,
-      .spawn .doListen false none, .call 1, .call 1, .call 1, .clientConnect 0, .call 1, .call 1, .call 1, .call 1]
+  ⟨_, quiet_of_runS [.spawn .bind false (some 0), .call 0,
+      .spawn .doListen false none, .call 1, .call 1, .clientConnect 0, .call 1, .call 1, .call 1, .call 1,
+      .spawn .bind false (some 1), .call 2]
       rfl (by decide), by decide, by decide⟩
 
-/-- **timeout_releases_endpoint**: (orderly use) a serving call whose return value is the timeout error closes the
-    listener it served in its teardown — the address is free for a new bind at once (`addrInUse = false`, which is
-    exactly the guard of the `listen` step) — and from then on, for ever, the listener is closed and every client
-    connecting to it is refused. -/
-theorem timeout_releases_endpoint {w : World} (h : OReach w) {k : Nat} {c : Call} (hk : w.calls[k]? = some c)
+/-- `Serial` is NECESSARY here: a DoListen started before anything was bound runs its deferred teardown when it
+    pleases; if a second DoListen was started meanwhile (violating `Serial`: the first is still in flight), that
+    teardown closes the listener under it and clears `running`: the service stops without timeout and without
+    Shutdown, the second call is on its way out with nil. -/
+example : ∃ w w', run init [.spawn .doListen false none, .call 0,       -- DoListen: no listener → deferred teardown pending
+                            .spawn .bind false (some 0), .call 1,       -- Bind
+                            .spawn .doListen false none] = some w ∧     -- second DoListen
+    serialB w (.call 2) = false ∧
+    run w [.call 2, .call 2, .call 0, .call 2, .call 2] = some w' ∧
+    w'.running = false ∧ isOpen w' 0 = false ∧
+    w'.calls.map (fun c => (c.pc, c.ret)) =
+      [(.waiting, some .errNoListener), (.returned, some .nil), (.teardown, some .nil)] :=
+  ⟨_, _, rfl, by decide, rfl, by decide, by decide, by decide⟩
+
+/-- **timeout_releases_endpoint** (EVERY reachable state, no discipline on API use): a serving call whose return
+    value is the timeout error leaves the listener it served closed by its teardown — the address is free for a new
+    bind at once (`addrInUse = false`, which is exactly the guard of the `listen` inside the bind step) — and from
+    then on, for ever, the listener is closed and every client connecting to it is refused. -/
+theorem timeout_releases_endpoint {w : World} (h : Reachable w) {k : Nat} {c : Call} (hk : w.calls[k]? = some c)
     (hret : c.ret = some .timeout) :
     ∃ l, c.l = some l ∧
       (c.pc = .teardown → ∃ x w', w.lsnrs[l]? = some x ∧ step w (.call k) = some w' ∧ Closed w' l ∧
           (x.isOpen = true → addrInUse w' x.addr = false)) ∧
       (c.pc = .waiting ∨ c.pc = .returned → Closed w l ∧
           ∀ w1, step w (.clientConnect l) = some w1 → (w1.conns[w.conns.length]?).map (·.phase) = some .refused) := by
-  obtain ⟨_, hv, ho⟩ := oreach_invs h
-  have hown := ho.own k c hk
-  obtain ⟨l, hl⟩ := Option.isSome_iff_exists.mp (hown.timeoutL hret)
+  have hv := valid_reachable h
+  have hown := srv_reachable h k c hk
+  obtain ⟨l, hl⟩ := Option.isSome_iff_exists.mp (hown.tmoL hret)
   refine ⟨l, hl, ?_, ?_⟩
   · intro hpc
-    have hlst : w.lst = some l := by rw [← hown.tearL hpc]; exact hl
-    have hlt := hv.lst l hlst
+    have hlt := hv.call k c l hk hl
     have hx : w.lsnrs[l]? = some w.lsnrs[l] := by simp [hlt]
-    refine ⟨_, (teardownShared w).setCall k { c with pc := .waiting }, hx, by simp only [step, stepCall, hk, hpc], ?_, ?_⟩
-    · exact closed_teardown hv hlst
+    have hstep : step w (.call k) = some ((teardownShared w).setCall k { c with pc := .waiting }) := by
+      simp only [step, stepCall, hk, hpc]
+    refine ⟨_, _, hx, hstep, ?_, ?_⟩
+    · rcases hown.tear hpc l hl with hcl | ⟨hlst, _⟩
+      · exact closed_step hstep hcl
+      · exact closed_teardown hv hlst
     · intro hopen
-      have hu := uniqueOpen_reach h
-      have := addr_free_after_close hu hx hopen
-      simpa [addrInUse, teardownShared, hlst] using this
+      rcases hown.tear hpc l hl with hcl | ⟨hlst, _⟩
+      · obtain ⟨x', hx', ho'⟩ := hcl
+        rw [hx] at hx'; simp only [Option.some.injEq] at hx'; subst hx'
+        rw [hopen] at ho'; cases ho'
+      · have hu := uniqueOpen_reach h
+        have := addr_free_after_close hu hx hopen
+        simpa [addrInUse, teardownShared, hlst] using this
   · intro hpc
-    have hcl := hown.closedL hpc (Or.inl (by rw [hret]; simp)) l hl
+    have hcl := hown.after hpc (Or.inl (by rw [hret]; simp)) l hl
     refine ⟨hcl, ?_⟩
     intro w1 hs
     simp only [step, stepConnect] at hs
@@ -169,20 +189,31 @@ theorem timeout_releases_endpoint {w : World} (h : OReach w) {k : Nat} {c : Call
       simp [isOpen_false_of_closed hcl]
     · cases hs
 
-/-- a timeout return reached under the orderly discipline (non-vacuity), and what follows: connect refused, address free -/
-example : ∃ w, OReach w ∧ (w.calls[1]?).map (fun c => (c.pc, c.ret)) = some (.returned, some .timeout) ∧
+/-- a timeout return (non-vacuity), and what follows: connect refused, address free -/
+example : ∃ w, Reachable w ∧ (w.calls[1]?).map (fun c => (c.pc, c.ret)) = some (.returned, some .timeout) ∧
     isOpen w 0 = false ∧ addrInUse w 0 = false ∧
     ((step w (.clientConnect 0)).bind fun w1 => (w1.conns[0]?).map (·.phase)) = some .refused :=
-  ⟨_, reach_of_runB [.spawn .bind false (some 0), .call 0, .call 0, .call 0, .call 0,
-      .spawn .doListen true none, .call 1, .call 1, .call 1, .call 1, .expire 1, .call 1, .call 1, .call 1] rfl,
+  ⟨_, reach_of_run [.spawn .bind false (some 0), .call 0,
+      .spawn .doListen true none, .call 1, .call 1, .call 1, .expire 1, .call 1, .call 1, .call 1] rfl,
     by decide, by decide, by decide, by decide⟩
+
+/-- … also when the API use is not orderly: a second serving call on the same listener, started while the first is
+    serving; the first call's timeout return releases the endpoint under both -/
+example : ∃ w, Reachable w ∧ ¬ SReach w ∧
+    w.calls.map (fun c => (c.pc, c.ret)) = [(.returned, some .nil), (.teardown, some .timeout), (.inAccept, none)] ∧
+    ((step w (.call 1)).map fun w' => (isOpen w' 0, addrInUse w' 0)) = some (false, false) :=
+  ⟨_, reach_of_run [.spawn .bind false (some 0), .call 0,
+      .spawn .doListen true none, .call 1, .call 1, .call 1,
+      .spawn .doListen false none, .call 2, .call 2, .expire 1, .call 1] rfl,
+    fun hs => not_one_of_two_active 1 2 (by decide) (by decide) (by decide) (sreach_one hs),
+    by decide, by decide⟩
 
 /-- regression witness for the repaired defect (fix 9038523): with the OLD teardown — fields cleared, listener not
     closed — the same timeout history leaves the endpoint open: a later client is queued on a listener nobody will
     ever accept from, and the address stays in use. -/
 example :
-    ((run init [.spawn .bind false (some 0), .call 0, .call 0, .call 0, .call 0,
-                .spawn .doListen true none, .call 1, .call 1, .call 1, .call 1, .expire 1, .call 1]).bind fun w =>
+    ((run init [.spawn .bind false (some 0), .call 0,
+                .spawn .doListen true none, .call 1, .call 1, .call 1, .expire 1, .call 1]).bind fun w =>
       (w.calls[1]?).bind fun c =>
         let w' := (teardownSharedOld w).setCall 1 { c with pc := .waiting }       -- OLD teardown
         (run w' [.call 1, .clientConnect 0]).map fun w2 =>
